@@ -17,8 +17,10 @@ def specEng (c : Conv) (locals : List Sym) : String :=
   else if c.err = "send-not-allowed" then
     -- the refused message never advances the state; when it is the very first message the
     -- application sends it is the head of a batch and must not reach the wire at all
+    -- (after the error the protocol unregisters itself and the muxer may drop segments it had
+    -- not written yet, so any prefix of the queue may have reached the peer)
     let ws := if c.sent.isEmpty then [([] : List Sym)]
-              else (List.range (locals.length + 1 - c.sent.length)).map (fun d => locals.take (c.sent.length + d))
+              else (List.range (locals.length + 1)).map (fun k => locals.take k)
     "||".intercalate ((prefixes c.handled).flatMap (fun h => ws.map (fun w =>
       s!"H={symsStr h} E=send-not-allowed T={symsStr c.sent} W={typesStr w} *")))
   else "*"
